@@ -45,3 +45,33 @@ Fixpoint parquet_reqs {A} (fuel s n cs off : nat) (cache file : list (list A)) :
   end.
 Definition parquet_request_trace {A} (cs : nat) (groups : list (list A)) : list (list nat) :=
   let n := length (concat groups) in parquet_reqs n 0 n cs 0 [] groups.
+
+(* ---------- the multiprocessing write loop (catalog/catalog.py:write_patches, non-MPI branch) ----------
+     for chunk in reader:  pool.map(task, np.array_split(chunk, w))
+   The reader stays in the calling process and is driven with the configured chunk size whatever the number
+   of workers w; only the chunk it delivered is divided among the workers.  One step = (slice requested from
+   the source, sizes of the w tasks of the Pool.map call). *)
+Definition pool_steps (w n cs : nat) : list ((nat * nat) * list nat) :=
+  map (fun se => (se, array_split_sizes (slice_len se) w)) (slices n cs).
+
+(* variant (not the code): the chunk size adapted to the pool, python `cs += -cs % w` = next multiple of w *)
+Definition round_up (cs w : nat) : nat := cs + (w - cs mod w) mod w.
+Definition pool_steps_rounded (w n cs : nat) : list ((nat * nat) * list nat) :=
+  pool_steps w n (round_up cs w).
+
+(* checkers for the tie on the pool: sizes of the tasks of every Pool.map call *)
+Definition c18_pool_tasks_agree (w n cs : nat) (tasks : list (list nat)) : bool :=
+  list_eqb nlist_eqb (map snd (pool_steps w n cs)) tasks.
+(* flags: c18_case's [agree; spec; passes] for the request log, then for the writing (= last) pass
+   [tasks = model; every requested slice is handed to the pool completely, in the order requested] *)
+Definition c18_pool_case (w n cs passes : nat) (log : list (list (nat * nat))) (tasks : list (list nat)) : nat :=
+  code [forallb (c18_agree n cs) log; forallb (c18_spec n cs) log; length log =? passes;
+        c18_pool_tasks_agree w n cs tasks;
+        nlist_eqb (map (fold_right Nat.add 0) tasks) (map slice_len (last log []))].
+
+(* Parquet on the pool: the chunks handed to Pool.map (lens = rows per call) *)
+Definition c18_lens_bounded (cs : nat) (groups lens : list nat) : bool :=
+  forallb (fun l => (1 <=? l) && (l <=? cs)) lens &&
+  (fold_right Nat.add 0 lens =? fold_right Nat.add 0 groups).
+Definition c18_tasks_agree (w : nat) (lens : list nat) (tasks : list (list nat)) : bool :=
+  list_eqb nlist_eqb (map (fun l => array_split_sizes l w) lens) tasks.
